@@ -79,7 +79,13 @@ func (dl *dialLimiter) freeFDToken() {
 
 		// Skip over canceled dials instead of queuing up a goroutine.
 		if next.cancelled() {
+			consuming := dl.fdConsuming
 			dl.freePeerToken(next)
+			if dl.fdConsuming != consuming {
+				// freePeerToken passed the peer token to a dial that was waiting on the
+				// peer limit, and that dial took the FD token we are handing out.
+				return
+			}
 			continue
 		}
 		dl.fdConsuming++
